@@ -132,7 +132,13 @@ func (core *JApiCore) checkPathSchemaRoot(s *jschema.JSchema) error {
 			return fmt.Errorf(`%s (%s)`, jerr.UserTypeNotFound, typeName)
 		}
 
-		return core.checkPathSchemaRoot(ut.Schema.(*catalog.ExchangeJSightSchema).JSchema)
+		es, ok := ut.Schema.(*catalog.ExchangeJSightSchema)
+		if !ok {
+			// A type with the regex, any or empty notation is not an object.
+			return errors.New(jerr.PathObjectErr)
+		}
+
+		return core.checkPathSchemaRoot(es.JSchema)
 	}
 
 	if s.ASTNode.TokenType != schema.TokenTypeObject {
